@@ -81,6 +81,18 @@ class SSet(Sym):
         return "SSet(%s)" % self.name
 
 
+class SSetStr(Sym):
+    """set(...) of possibly-equal symbolic strings: only its members are known; order and
+    cardinality are abstracted (1 <= card <= len(items) when non-empty)."""
+    __slots__ = ("items",)
+
+    def __init__(self, items):
+        self.items = list(items)
+
+    def __repr__(self):
+        return "SSetStr(%d items)" % len(self.items)
+
+
 class SSeq(Sym):
     """Abstract finite sequence with symbolic length.  `elem` maps a z3 Int index to a
     value (Sym or concrete) ; `member` optionally gives membership for set-derived lists."""
@@ -174,6 +186,17 @@ class SetLit(Atom):
 
     def __repr__(self):
         return "SetLit(%r)" % (self.sset,)
+
+
+class SeqLit(Atom):
+    """sep.join(map(str, Q)) for an abstract sequence Q of ints."""
+    __slots__ = ("seq", "sep")
+
+    def __init__(self, seq, sep=","):
+        self.seq, self.sep = seq, sep
+
+    def __repr__(self):
+        return "SeqLit(%r)" % (self.seq,)
 
 
 class SStr(Sym):
